@@ -121,10 +121,11 @@ class OPEnv(RL4COEnvBase):
                 ),  # add 0 for depot
                 "tour_length": torch.zeros(*batch_size, device=device),
                 # max_length is max length allowed when arriving at node, so subtract distance to return to depot
-                # Additionally, substract epsilon margin for numeric stability
+                # Additionally, add epsilon margin for numeric stability: a tour whose length equals the
+                # budget must stay reachable (the solution checker tolerates 1e-5)
                 "max_length": td["max_length"][..., None]
                 - (td["depot"][..., None, :] - locs_with_depot).norm(p=2, dim=-1)
-                - 1e-6,
+                + 1e-6,
                 "current_node": torch.zeros(
                     *batch_size, 1, dtype=torch.long, device=device
                 ),
@@ -200,7 +201,7 @@ class OPEnv(RL4COEnvBase):
             max_length = (
                 max_length
                 + (td["locs"][..., 0:1, :] - td["locs"]).norm(p=2, dim=-1)
-                + 1e-6
+                - 1e-6
             )
         assert (
             length[..., None] <= max_length + 1e-5
